@@ -1611,4 +1611,163 @@ theorem realCollect_realText (sg ip fp : List Byte) (ex : Option (List Byte × L
   simp [realText]
 
 
+/-! ### REAL writer -/
+/-- law L2 (shape of `%.15G` for a finite double): optional `-`, digits, optionally `.` and digits, optionally `E`, sign, digits -/
+def G15Shape (t : List Byte) : Prop :=
+  ∃ sg ip fr ex, t = sg ++ (ip ++ (fr ++ exText 69 ex)) ∧ (sg = [] ∨ sg = [45]) ∧ ip ≠ [] ∧ ip.all isDigit = true ∧
+    (fr = [] ∨ ∃ fp, fr = 46 :: fp ∧ fp ≠ [] ∧ fp.all isDigit = true) ∧ ExWF ex
+
+theorem digits_not_mem (ds : List Byte) (h : ds.all isDigit = true) (b : Byte) (hb : isDigit b = false) : ds.contains b = false := by
+  induction ds with
+  | nil => rfl
+  | cons a u ih =>
+    simp only [List.all_cons, Bool.and_eq_true] at h
+    have : (b == a) = false := by
+      cases hq : (b == a)
+      · rfl
+      · have : b = a := by simpa using hq
+        subst this; rw [h.1] at hb; cases hb
+    simp only [List.contains_cons, this, Bool.false_or]
+    exact ih h.2
+
+theorem sign_not_mem (sg : List Byte) (h : IsSign sg) (b : Byte) (h1 : b ≠ 43) (h2 : b ≠ 45) : sg.contains b = false := by
+  rcases h with rfl | rfl | rfl <;> simp [h1, h2]
+
+theorem exText_no_dot (ex : Option (List Byte × List Byte)) (hex : ExWF ex) : (exText 69 ex).contains 46 = false := by
+  cases ex with
+  | none => rfl
+  | some p =>
+    obtain ⟨esg, ed⟩ := p
+    obtain ⟨hes, _, hed⟩ := hex
+    simp only [exText, List.contains_cons, List.contains_append]
+    rw [sign_not_mem esg hes 46 (by decide) (by decide), digits_not_mem ed hed 46 (by decide)]
+    decide
+
+theorem findIdx_69 (pre : List Byte) (r : List Byte) (h : pre.contains 69 = false) :
+    (pre ++ 69 :: r).findIdx? (· == 69) = some pre.length := by
+  induction pre with
+  | nil => simp [List.findIdx?_cons]
+  | cons a u ih =>
+    simp only [List.contains_cons, Bool.or_eq_false_iff] at h
+    have ha : (a == 69) = false := by
+      have := h.1
+      cases hq : (a == 69)
+      · rfl
+      · have e : a = 69 := by simpa using hq
+        subst e; simp at this
+    simp [List.findIdx?_cons, ha, ih h.2]
+
+theorem take_pre (a b : List Byte) : List.take a.length (a ++ b) = a := by
+  induction a with
+  | nil => simp
+  | cons x u ih => simp [ih]
+
+theorem drop_pre1 (a : List Byte) (x : Byte) (b : List Byte) : List.drop (a.length + 1) (a ++ x :: b) = b := by
+  induction a with
+  | nil => simp
+  | cons y u ih => simpa using ih
+
+/-- the decimal a text without a decimal point denotes -/
+theorem parse_dotless (sg ip : List Byte) (el : Byte) (ex : Option (List Byte × List Byte))
+    (hsg : IsSign sg) (hip1 : ip ≠ []) (hip : ip.all isDigit = true) (hel : el = 69 ∨ el = 101) (hex : ExWF ex) :
+    parseFloatText (sg ++ (ip ++ exText el ex)) = some ⟨sg == [45], digitsVal ip 0, exVal ex⟩ := by
+  obtain ⟨d, u, rfl⟩ : ∃ d u, ip = d :: u := by
+    cases ip with
+    | nil => exact absurd rfl hip1
+    | cons d u => exact ⟨d, u, rfl⟩
+  have hd : isDigit d = true := by simp at hip; exact hip.1
+  have h1 : optSign (sg ++ ((d :: u) ++ exText el ex)) = (sg, (d :: u) ++ exText el ex) :=
+    optSign_of_sign sg _ hsg (by simpa using digit_head_not_sign d _ hd)
+  have h2 : takeDigits ((d :: u) ++ exText el ex) = (d :: u, exText el ex) :=
+    takeDigits_run _ _ hip (exText_noDigit el hel ex)
+  have hnodot : optDot (exText el ex) = ([], exText el ex) := by
+    cases ex with
+    | none => rfl
+    | some p =>
+      unfold optDot exText
+      split
+      · rename_i heq; simp at heq; rcases hel with rfl | rfl <;> simp at heq
+      · rfl
+  unfold parseFloatText
+  simp only [h1, h2, hnodot, List.isEmpty_nil, if_true, List.isEmpty_cons, Bool.false_and, Bool.false_eq_true, if_false,
+    List.append_nil, List.length_nil]
+  cases ex with
+  | none => simp [exText, exVal]
+  | some p =>
+    obtain ⟨esg, ed⟩ := p
+    obtain ⟨hes, hed1, hed⟩ := hex
+    obtain ⟨e0, eu, rfl⟩ : ∃ e0 eu, ed = e0 :: eu := by
+      cases ed with
+      | nil => exact absurd rfl hed1
+      | cons e0 eu => exact ⟨e0, eu, rfl⟩
+    have he0 : isDigit e0 = true := by simp at hed; exact hed.1
+    have h4 : optSign (esg ++ (e0 :: eu)) = (esg, e0 :: eu) :=
+      optSign_of_sign esg _ hes (by simpa using digit_head_not_sign e0 eu he0)
+    have h5 : takeDigits (e0 :: eu) = (e0 :: eu, []) := by
+      simpa using takeDigits_run (e0 :: eu) [] hed (Or.inl rfl)
+    have hel' : (el == 101 || el == 69) = true := by rcases hel with rfl | rfl <;> decide
+    simp [exText, exVal, hel', h4, h5]
+
+/-- W1: what `WriteReal` makes of a `%.15G` output of the expected shape is a text of the real shape — the same digits,
+    with a `.` after the integer part when none was printed — and it denotes what the `%.15G` text denotes -/
+theorem writeReal_shape {F} (ops : FloatOps F) (v : F) (h : G15Shape (ops.fmtG15 v)) :
+    ∃ sg ip fp ex, writeReal ops v = realText sg ip fp 69 ex ∧ IsSign sg ∧ ip ≠ [] ∧ ip.all isDigit = true ∧
+      fp.all isDigit = true ∧ ExWF ex ∧
+      parseFloatText (ops.fmtG15 v) = some ⟨sg == [45], digitsVal (ip ++ fp) 0, exVal ex - (fp.length : Int)⟩ := by
+  obtain ⟨sg, ip, fr, ex, ht, hsg0, hip1, hip, hfr, hex⟩ := h
+  have hsg : IsSign sg := by rcases hsg0 with rfl | rfl <;> simp [IsSign]
+  have hsg46 : 46 ∉ sg := by simpa using sign_not_mem sg hsg 46 (by decide) (by decide)
+  have hip46 : 46 ∉ ip := by simpa using digits_not_mem ip hip 46 (by decide)
+  have hex46 : 46 ∉ exText 69 ex := by simpa using exText_no_dot ex hex
+  have hsg69 : 69 ∉ sg := by simpa using sign_not_mem sg hsg 69 (by decide) (by decide)
+  have hip69 : 69 ∉ ip := by simpa using digits_not_mem ip hip 69 (by decide)
+  have hsg101 : 101 ∉ sg := by simpa using sign_not_mem sg hsg 101 (by decide) (by decide)
+  have hip101 : 101 ∉ ip := by simpa using digits_not_mem ip hip 101 (by decide)
+  rcases hfr with rfl | ⟨fp, rfl, hfp1, hfp⟩
+  · -- no decimal point printed
+    have hno : (ops.fmtG15 v).contains 46 = false := by
+      rw [ht]; simp [List.contains_append, hsg46, hip46, hex46]
+    cases ex with
+    | none =>
+      -- digits only: append the point
+      have hnoE : ((ops.fmtG15 v).contains 69 || (ops.fmtG15 v).contains 101) = false := by
+        rw [ht]
+        simp [exText, List.contains_append, hsg69, hip69, hsg101, hip101]
+      refine ⟨sg, ip, [], none, ?_, hsg, hip1, hip, rfl, trivial, ?_⟩
+      · simp only [writeReal, hno, hnoE, Bool.false_eq_true, if_false]
+        rw [ht]; simp [realText, exText]
+      · rw [ht]
+        have := parse_dotless sg ip 69 none hsg hip1 hip (Or.inl rfl) trivial
+        simpa [exText, exVal] using this
+    | some p =>
+      obtain ⟨esg, ed⟩ := p
+      have hpre : (sg ++ ip).contains 69 = false := by
+        simp [List.contains_append, hsg69, hip69]
+      have hE : ((ops.fmtG15 v).contains 69 || (ops.fmtG15 v).contains 101) = true := by
+        rw [ht]; simp [exText, List.contains_append]
+      have hidx : (ops.fmtG15 v).findIdx? (· == 69) = some (sg ++ ip).length := by
+        rw [ht]
+        have := findIdx_69 (sg ++ ip) (esg ++ ed) hpre
+        simpa [exText, List.append_assoc] using this
+      refine ⟨sg, ip, [], some (esg, ed), ?_, hsg, hip1, hip, rfl, hex, ?_⟩
+      · simp only [writeReal, hno, hE, Bool.false_eq_true, if_false, if_true, hidx]
+        rw [ht]
+        have e1 : (sg ++ (ip ++ ([] ++ exText 69 (some (esg, ed))))) = (sg ++ ip) ++ 69 :: (esg ++ ed) := by simp [exText]
+        rw [e1]
+        rw [take_pre (sg ++ ip) (69 :: (esg ++ ed)), drop_pre1 (sg ++ ip) 69 (esg ++ ed)]
+        simp [realText, exText]
+      · rw [ht]
+        have := parse_dotless sg ip 69 (some (esg, ed)) hsg hip1 hip (Or.inl rfl) hex
+        simpa using this
+  · -- a decimal point was printed: unchanged
+    have hyes : (ops.fmtG15 v).contains 46 = true := by
+      rw [ht]; simp [List.contains_append]
+    refine ⟨sg, ip, fp, ex, ?_, hsg, hip1, hip, hfp, hex, ?_⟩
+    · simp only [writeReal, hyes, if_true]
+      rw [ht]; simp [realText]
+    · rw [ht]
+      have := parse_realText sg ip fp 69 ex hsg hip1 hip hfp (Or.inl rfl) hex
+      simpa [realText] using this
+
+
 end StepModel.P21.Lemmas
